@@ -65,6 +65,8 @@ def units_for(mods, prop, tier, only):
                 continue
             if only and u['name'] not in only:
                 continue
+            if u.get('tier') == 'attic' and not only:
+                continue        # experimental unit that does not decide within its limits: kept for the record, run only by name
             if tier == 'quick' and u.get('tier', 'quick') != 'quick' and not only:
                 continue
             res.append(u)
